@@ -34,13 +34,13 @@ MANIFEST = {
                  "(acceptance predicate, round trips incl. values generated from look-alike texts, immunity to later edits of the caller's restriction list)",
     "text": "Theorems in lean/Jap/Props/C20.lean prove for all inputs: a restricted number type accepts v iff v denotes a number of the base type "
             "and the and/or-joined comparisons hold, returns that number, and casting again is the identity (C20_num_iff, C20_num_idem, "
-            "C20_num_int_exact; empty restriction lists, NonNegativeInt/PositiveInt/unit intervals, nan/inf/zero/subnormal tables); the outcome does not depend on the "
+            "C20_num_int_exact; never OverflowError: C20_num_no_overflow; empty restriction lists, NonNegativeInt/PositiveInt/unit intervals, nan/inf/zero/subnormal tables); the outcome does not depend on the "
             "order of the restrictions and every class handed out by the registry validates exactly the restrictions stated in that call, the same name and key give the "
             "same class, another name is refused, existing classes are never changed by later creations or by edits of the caller's list (C20_num_perm, C20_key_sound, "
             "C20_create_sound/_same_class/_other_name/_frame/_ignores_later_mutation); restricted strings accept exactly the matched texts (C20_str_iff); "
             "register_type semantics (lookup, conflict, no-op, override) and, for ANY serializer/deserializer pair with deser . ser = id, parse(dump(v)) = v through the "
             "registered-type branch (C20_registered_rt, instantiated for range, timedelta, bytes, UUID); the range, timedelta, base64, UUID and complex codecs round-trip "
-            "for every value; serialised texts are read back as strings or quoted (C20_text_safe, C20_text_plain_*); SecretStr serialisation is constant (C20_secret); "
+            "for every value; serialised texts are read back as strings or quoted (C20_text_safe, C20_text_plain_*; any text with `/`, `@` or another character no resolver mentions is a plain string: C20_text_plain_other_char); SecretStr serialisation is constant (C20_secret); "
             "Decimal round-trips under an exact serializer, and through today's `float` serializer ONLY dyadic rationals with denominator dividing 2^1074 survive: every "
             "decimal whose reduced denominator has a factor 5 is changed (C20_decimal_float_survivors_dyadic, C20_decimal_float_lossy_class; open finding). "
             "The model is tied to /repo by Gen/Registered (operators, predefined types, handler names, regex literals), Gen/TypingSrc (every statement of the "
